@@ -289,6 +289,17 @@ def kstep_sx(st):
         if st[3] is not None:
             parts.append('(%s)' % ' '.join(str(x) for x in st[3]))
         return ' '.join(parts)
+    if st[0] == 6:
+        out = ['6']
+        for sub in st[1]:
+            if sub[0] == 'i':
+                out.append('(i %s)' % ' '.join(str(x) for x in sub[1]))
+            elif sub[0] == 'w':
+                out.append('(w)')
+            else:
+                out.append('(s (%s) (%s)%s)' % (' '.join(str(x) for x in sub[1]), ' '.join(str(x) for x in sub[2]),
+                                                 '' if sub[3] is None else ' (%s)' % ' '.join(str(x) for x in sub[3])))
+        return ' '.join(out)
     return ' '.join([str(st[0])] + [str(x) for x in st[1]])
 
 
